@@ -79,6 +79,7 @@ fn run_in_fresh_thread(fmt: Fmt, game: String, text: Vec<u8>, maps: Vec<Vec<u8>>
 fn check_threads(case: &Value, ctx: &mut CheckCtx) -> Outcome {
     let Some((fmt, game, text, maps)) = materialize(case) else { return Outcome::Discard("case cannot be materialised".into()) };
     ctx.label(format!("fmt:{}", fmt.name())); ctx.label("mode:threads");
+    if case["competing"] == true { ctx.label("competing"); }
     if !maps.is_empty() { ctx.label("mapfile"); }
     const RUNS: usize = 4;
     let mut first: Option<(InProc, Vec<u64>)> = None;
@@ -116,7 +117,7 @@ impl Property for C19 {
     }
     fn tape_len(&self, tier: Tier) -> usize { tier.pick(300, 500) }
     fn cases(&self, tier: Tier) -> u32 { tier.pick(10_000, 300_000) }
-    fn required_labels(&self, _tier: Tier) -> Vec<&'static str> { vec!["mode:cli", "mode:threads", "threads:hash-seeds-differ", "compile:ok", "compile:failed", "diagnostics:>=2", "decompile-compared", "debug-info-compared", "mapfile", "fmt:anm", "fmt:std", "fmt:msg", "fmt:ecl"] }
+    fn required_labels(&self, _tier: Tier) -> Vec<&'static str> { vec!["mode:cli", "mode:threads", "threads:hash-seeds-differ", "compile:ok", "compile:failed", "diagnostics:>=2", "competing", "decompile-compared", "debug-info-compared", "mapfile", "fmt:anm", "fmt:std", "fmt:msg", "fmt:ecl"] }
     fn max_discard_fraction(&self) -> f64 { 0.05 }
 
     fn generate(&self, tape: &mut Tape, tier: Tier, known: &Known) -> Value {
@@ -129,8 +130,42 @@ impl Property for C19 {
     fn check(&self, case: &Value, ctx: &mut CheckCtx) -> Outcome { self.check_impl(case, ctx) }
 }
 
+/// A mapfile with several entries competing for each kind of diagnostic (undefined enums, near-miss enum names with
+/// equally close candidates, the same name given to several opcodes / registers, unknown sections, conflicting enum values)
+/// plus a source that trips over several of them.
+fn competing_case(tape: &mut Tape) -> Value {
+    let fmt = *tape.pick(&[Fmt::Anm, Fmt::Msg, Fmt::Std, Fmt::Ecl]);
+    let game = *tape.pick(games_for(fmt));
+    let magic = match fmt { Fmt::Anm => "!anmmap", Fmt::Std => "!stdmap", Fmt::Msg => "!msgmap", _ => "!eclmap" };
+    let mut m = format!("{}\n", magic);
+    let n_enums = 2 + tape.below(4);
+    let names: Vec<String> = (0..n_enums).map(|i| format!("{}{}", *tape.pick(&["color", "colour", "kind", "colorA", "colorB", "Kind"]), if tape.bool() { i.to_string() } else { String::new() })).collect();
+    for (i, n) in names.iter().enumerate() {
+        if tape.chance(3, 4) { m.push_str(&format!("!enum(name=\"{}\")\n", n)); for k in 0..(1 + tape.below(3)) { m.push_str(&format!("{} {}\n", k + i, *tape.pick(&["Red", "Blue", "Green", "red", "Rod"]))); } }
+    }
+    m.push_str("!ins_signatures\n");
+    let nsig = 2 + tape.below(6);
+    for k in 0..nsig {
+        let e = match tape.below(4) { 0 => names[tape.below(names.len())].clone(), 1 => format!("{}x", names[tape.below(names.len())]), 2 => format!("nope{}", tape.below(4)), _ => "colorC".to_string() };
+        m.push_str(&format!("{} {}(enum=\"{}\"){}\n", 900 + k, *tape.pick(&["S", "s", "b", "U"]), e, if tape.chance(1, 4) { "S(enum=\"nope9\")" } else { "" }));
+    }
+    if tape.bool() { m.push_str("!ins_names\n"); for k in 0..(2 + tape.below(4)) { m.push_str(&format!("{} {}\n", 900 + k, *tape.pick(&["dupname", "other", "dupname2", "ins_5"]))); } }
+    if tape.bool() { m.push_str("!gvar_names\n"); for k in 0..(2 + tape.below(4)) { m.push_str(&format!("{} {}\n", 10000 + k, *tape.pick(&["dupreg", "R", "dupreg2"]))); } m.push_str("!gvar_types\n"); for k in 0..4 { m.push_str(&format!("{} {}\n", 10000 + k, if tape.bool() { "$" } else { "%" })); } }
+    for _ in 0..tape.below(4) { m.push_str(&format!("!{}\n1 x\n", *tape.pick(&["ins_comments", "ins_notes", "nonsense", "gvar_comments", "ins_rets"]))); }
+    if tape.chance(1, 3) { m.push_str("!difficulty_flags\n0 E\n1 N\n2 H-\n3 L+\n4 X+\n"); }
+    let sub = tape.fork(120);
+    let mut st = Tape::new(&sub);
+    let f = gen_file(&mut st, fmt, game, 4);
+    // a few statements that use the competing names
+    let mut extra = String::new();
+    for _ in 0..tape.below(5) { extra.push_str(*tape.pick(&["    ins_900(Red);\n", "    ins_901(Blue);\n", "    dupname(1);\n", "    ins_902(colorA.Red);\n", "    ins_903(Rid);\n", "    dupreg = 1;\n", "    $R = $dupreg2;\n", "    ins_900(nope.Red);\n", "unusedlabel:\n", "unusedlabel2:\n"])); }
+    let text = match f.text.rfind('}') { Some(p) => format!("{}{}{}", &f.text[..p], extra, &f.text[p..]), None => f.text.clone() };
+    json!({"kind": "mapfile", "fmt": fmt.name(), "game": game, "map": m, "mutations": [], "text": text, "competing": true})
+}
+
 impl C19 {
     fn generate_input(&self, tape: &mut Tape, tier: Tier, known: &Known) -> Value {
+        if tape.chance(1, 5) { return competing_case(tape); }
         if tape.chance(1, 3) {
             let fmt = pick_fmt(tape);
             let game = *tape.pick(games_for(fmt));
@@ -162,6 +197,7 @@ impl C19 {
     fn check_impl(&self, case: &Value, ctx: &mut CheckCtx) -> Outcome {
         if case["mode"] == "threads" { return check_threads(case, ctx); }
         ctx.label("mode:cli");
+        if case["competing"] == true { ctx.label("competing"); }
         let Some(bin) = cli() else { return Outcome::Discard("TV_TRUTH_CORE is not set (the driver builds the CLI and sets it)".into()) };
         let Some((fmt, game, text, maps)) = materialize(case) else { return Outcome::Discard("case cannot be materialised".into()) };
         ctx.label(format!("fmt:{}", fmt.name()));
